@@ -40,7 +40,8 @@ class Env:
 class Gen:
     """types: 'int', 'bool', 'list', ('proc', nfixed, has_rest)  (procedures return int)"""
 
-    def __init__(self, rng, ticks=True, derived=False, tick_rate=0.15):
+    def __init__(self, rng, ticks=True, derived=False, tick_rate=0.15, reuse=0.4):
+        self.reuse = reuse
         self.rng = rng
         self.counter = 0
         self.tick_id = 0
@@ -52,7 +53,31 @@ class Gen:
         self.mult = 1           # 7 inside the body of a recursive procedure
         self.LIMIT = 3000
 
-    def fresh(self, p="v"):
+    INT_POOL = ["a", "b", "c", "n", "m", "x", "y", "z"]
+    LIST_POOL = ["l", "lst", "rest"]
+    PROC_POOL = ["f", "g", "h", "k"]
+
+    def fresh(self, p="v", avoid=(), inner=True, env=None):
+        """a binder name: often taken from a small pool so that inner binders shadow outer ones and
+        definitions collide; otherwise unique. Procedure names are reused only in inner scopes."""
+        r = self.rng
+        if self.reuse and env is not None and p in ("x", "p", "b") and r.random() < 0.3:
+            # deliberately shadow / redefine a visible variable of the same type
+            cands = [n for n in env.all("int") if n not in avoid]
+            if cands:
+                return r.choice(cands)
+        if self.reuse and r.random() < self.reuse:
+            pool = None
+            if p in ("x", "p", "b", "c"):
+                pool = self.INT_POOL
+            elif p in ("l", "r"):
+                pool = self.LIST_POOL
+            elif p in ("f",) and inner:
+                pool = self.PROC_POOL
+            if pool:
+                cands = [n for n in pool if n not in avoid]
+                if cands:
+                    return r.choice(cands)
         self.counter += 1
         return "%s%d" % (p, self.counter)
 
@@ -97,7 +122,8 @@ class Gen:
             # higher order: pass a procedure to a procedure expecting one
             t = ("proc", 1, False)
             f = self.lambda_expr(env, d - 1, t)
-            h = self.fresh("h")
+            self.counter += 1
+            h = "h%d" % self.counter
             x = self.fresh("x")
             return "((lambda (%s %s) (%s %s)) %s %s)" % (h, x, h, x, f, self.int_expr(env, d - 1))
         return self.tick(self.int_expr(env, d - 1))
@@ -139,7 +165,7 @@ class Gen:
 
     def proc_type(self, d):
         r = self.rng
-        return ("proc", r.choice([0, 1, 1, 2, 2, 3, 4, 5]), r.random() < 0.25)
+        return ("proc", r.choice([0, 0, 1, 1, 2, 2, 3, 4, 5]), r.random() < 0.25)
 
     def call(self, fexpr, t, env, d):
         r = self.rng
@@ -154,9 +180,11 @@ class Gen:
             return "(apply %s %s (list %s))" % (fexpr, " ".join(args[:k]), " ".join(args[k:]))
         return "(%s %s)" % (fexpr, " ".join(args)) if args else "(%s)" % fexpr
 
-    def formals(self, t):
+    def formals(self, t, env=None):
         _, nfixed, rest = t
-        names = [self.fresh("p") for _ in range(nfixed)]
+        names = []
+        for _ in range(nfixed):
+            names.append(self.fresh("p", avoid=names, env=env))
         rn = self.fresh("r") if rest else None
         if rest and not names:
             return names, rn, rn
@@ -173,7 +201,7 @@ class Gen:
         if rn:
             e.vars[rn] = "list"
         parts = []
-        for _ in range(r.choice([0, 0, 0, 1, 2])):
+        for _ in range(r.choice([0, 0, 1, 1, 2])):
             parts.append(self.definition(e, d - 1, toplevel=False))
         for _ in range(r.choice([0, 0, 1])):
             parts.append(self.tick(self.int_expr(e, d - 1)))
@@ -184,14 +212,14 @@ class Gen:
         return " ".join(parts)
 
     def lambda_expr(self, env, d, t):
-        names, rn, fs = self.formals(t)
+        names, rn, fs = self.formals(t, env)
         return "(lambda %s %s)" % (fs, self.body(env, d, names, rn))
 
     def definition(self, env, d, toplevel=True):
         r = self.rng
         k = r.random()
         if k < 0.35:
-            n = self.fresh("x")
+            n = self.fresh("x", env=env)
             s = "(define %s %s)" % (n, self.int_expr(env, d))
             env.vars[n] = "int"
             return s
@@ -201,8 +229,8 @@ class Gen:
             env.vars[n] = "list"
             return s
         t = self.proc_type(d)
-        n = self.fresh("f")
-        names, rn, fs = self.formals(t)
+        n = self.fresh("f", inner=not toplevel)
+        names, rn, fs = self.formals(t, env)
         saved_acc, saved_mult = self.acc, self.mult
         self.acc = 0
         if r.random() < 0.25 and t[1] >= 1 and toplevel:
@@ -252,7 +280,9 @@ class Gen:
         k = r.choice(["let", "let*", "cond", "case", "and", "or", "when", "unless", "begin"])
         if k in ("let", "let*"):
             n = r.randint(1, 3)
-            names = [self.fresh("b") for _ in range(n)]
+            names = []
+            for _ in range(n):
+                names.append(self.fresh("b", avoid=names))
             e = env.child()
             inits = []
             for nm in names:
@@ -307,7 +337,10 @@ class Gen:
                 forms.append(self.definition(env, depth))
             else:
                 k = self.rng.random()
-                if k < 0.7:
+                if k < 0.25 and env.all("int"):
+                    # read every visible variable back (after whatever the earlier forms did)
+                    forms.append("(list %s)" % " ".join(sorted(env.all("int"))))
+                elif k < 0.7:
                     forms.append(self.tick(self.int_expr(env, depth)))
                 elif k < 0.85:
                     forms.append(self.list_expr(env, depth))
